@@ -1235,6 +1235,8 @@ fn small_programs() -> Vec<Vec<Op>> {
             out.push(vec![x.clone(), y.clone()]);
         }
     }
+    // a live iterator over the full list (against every program above, and itself)
+    out.push(vec![Op::IterNew(0), Op::IterNext, Op::IterNext]);
     out
 }
 
@@ -1425,10 +1427,17 @@ fn random_elem_case(seed: u64, index: u64) -> Case {
             (0..len).map(|i| 1 + (i as u64 % 3)).collect()
         })
         .collect();
-    let mut progs = vec![];
+    let mut progs: Vec<Vec<Op>> = vec![];
     for _ in 0..2 {
         let n = 1 + rng.below(2) as usize;
         progs.push((0..n).map(|_| random_op(&mut rng)).collect());
+    }
+    // every 5th: thread 0 walks a list with a live iterator (the clone inside
+    // every `next` is a schedule point of its own)
+    if index % 5 == 2 {
+        let mut p = vec![Op::IterNew(rng.below(2) as usize)];
+        p.extend((0..1 + rng.below(2)).map(|_| Op::IterNext));
+        progs[0] = p;
     }
     Case { lists, progs, elem: true, script: false }
 }
